@@ -51,6 +51,7 @@ def make_datagram(sim, src, ptype, payload, pn=None, pad_to=None, **kw):
 
 
 def inject(sim, src, ptype, payload, tag, **kw):
+    from_addr = kw.pop("from_addr", None)      # a source address of the hostile peer's choosing (default: the genuine one)
     pn = kw.get("pn")
     if pn is None:
         pn = sim.eps[src]._packet_number
@@ -60,7 +61,7 @@ def inject(sim, src, ptype, payload, tag, **kw):
     dst = "s" if src == "c" else "c"
     if dst not in sim.eps:
         raise MachineryError("hostile inject before the peer exists")
-    addr = sim.caddr if src == "c" else ("10.0.0.2", 4433)
+    addr = from_addr or (sim.caddr if src == "c" else ("10.0.0.2", 4433))
     rec = sim.ev("inject", src=src, ptype=ptype, tag=tag, plen=len(payload), pn=pn, accepted=False)
     closing_before = sim.eps[dst]._close_event is not None
     sim.inject(dst, raw, addr, tag)
